@@ -27,7 +27,7 @@ structure Individual where
   rep : List (Option F)       -- per repetition-bounds constraint
   soft : Nat                  -- number of soft constraints
   softMean : F                -- what evaluate_soft_constraints would return
-  deriving Repr
+  deriving Repr, DecidableEq
 
 structure EvalState where
   solutionSet : List Int
